@@ -578,6 +578,25 @@ decompress_smooth_data(j_decompress_ptr cinfo, _JSAMPIMAGE output_buf)
       DC11 = DC12 = DC13 = DC14 = DC15 = (int)buffer_ptr[0][0];
       DC16 = DC17 = DC18 = DC19 = DC20 = (int)next_block_row[0][0];
       DC21 = DC22 = DC23 = DC24 = DC25 = (int)next_next_block_row[0][0];
+      /* If the window of blocks to process (jpeg_crop_scanline()) does not
+       * start at the left edge of the image, then the blocks to the left of it
+       * exist, and their DC values must be used, as they are when the whole
+       * image is decompressed.
+       */
+      if (cinfo->master->first_MCU_col[ci] > 0) {
+        DC01 = DC02 = (int)prev_prev_block_row[-1][0];
+        DC06 = DC07 = (int)prev_block_row[-1][0];
+        DC11 = DC12 = (int)buffer_ptr[-1][0];
+        DC16 = DC17 = (int)next_block_row[-1][0];
+        DC21 = DC22 = (int)next_next_block_row[-1][0];
+        if (cinfo->master->first_MCU_col[ci] > 1) {
+          DC01 = (int)prev_prev_block_row[-2][0];
+          DC06 = (int)prev_block_row[-2][0];
+          DC11 = (int)buffer_ptr[-2][0];
+          DC16 = (int)next_block_row[-2][0];
+          DC21 = (int)next_next_block_row[-2][0];
+        }
+      }
       output_col = 0;
       last_block_column = compptr->width_in_blocks - 1;
       for (block_num = cinfo->master->first_MCU_col[ci];
